@@ -62,21 +62,129 @@ fn gen_sample_x(rng: &mut SplitMix, spec: &GraphSpec, dim: usize) -> Op {
 
 fn events_of(spec: &GraphSpec, s: &Arc<dyn Sampler>, op: &Op) -> u64 {
     use crate::model::{exec_op, ClientState, Env};
-    let env = Env {
+    let envs = vec![Arc::new(Env {
         spec: spec.clone(),
         shared: std::sync::Mutex::new((s.clone(), false)),
         disk: std::sync::Mutex::new(None),
         restarts_published: std::sync::Mutex::new(0),
+    })];
+    let mut cs = ClientState::new();
+    let reps = match op {
+        Op::Repeat { n, .. } => *n,
+        Op::Alt(b) => match &**b {
+            Op::Repeat { n, .. } => *n,
+            _ => 1,
+        },
+        _ => 1,
     };
-    let mut cs = ClientState { local: None };
-    let r = match op {
-        Op::Repeat { op, n } => {
-            let r = exec_op(&env, &mut cs, op, false, u64::MAX);
-            return r.events * *n;
+    exec_op(&envs, &mut cs, op.strip().1, false, u64::MAX).events * reps
+}
+
+struct Target {
+    spec: GraphSpec,
+    s: Arc<dyn Sampler>,
+    dim: usize,
+    image_finite: bool,
+}
+
+fn target(spec: GraphSpec, s: Arc<dyn Sampler>) -> Target {
+    let dim = s.dimension();
+    let image_finite = s.image().count_floats().1 == 0;
+    Target { spec, s, dim, image_finite }
+}
+
+/// a second sampler for the run: usually the SAME edge list with other externals /
+/// one mass flag / one weight changed (what a cache keyed too coarsely confuses),
+/// sometimes an unrelated graph
+fn make_alt(rng: &mut SplitMix, main: &GraphSpec, max_e: u64, max_l: usize) -> Option<Target> {
+    if rng.chance(3, 4) {
+        for _ in 0..8 {
+            let mut v = main.clone();
+            v.name = String::new();
+            match rng.below(4) {
+                0 | 1 => {
+                    let mut verts: Vec<u8> = v.edges.iter().flat_map(|e| [e.v.0, e.v.1]).collect();
+                    verts.sort_unstable();
+                    verts.dedup();
+                    v.externals = verts.into_iter().filter(|_| rng.chance(1, 2)).collect();
+                }
+                2 => {
+                    let i = rng.below(v.edges.len() as u64) as usize;
+                    v.edges[i].massive = !v.edges[i].massive;
+                }
+                _ => {
+                    let i = rng.below(v.edges.len() as u64) as usize;
+                    let w = f64::from_bits(v.edges[i].w) * *rng.pick(&[0.75, 1.25, 1.5, 2.0]);
+                    v.edges[i].w = w.to_bits();
+                }
+            }
+            if v.externals == main.externals && v.edges == main.edges {
+                continue;
+            }
+            if let Built::Ok(s) = sampler::build(&v) {
+                return Some(target(v, Arc::from(s)));
+            }
         }
-        o => exec_op(&env, &mut cs, o, false, u64::MAX),
-    };
-    r.events
+    }
+    let (spec, s) = pick_graph(rng, max_e, max_l);
+    if spec == *main {
+        return None;
+    }
+    Some(target(spec, s))
+}
+
+fn gen_rng_op(rng: &mut SplitMix, t: &Target) -> Op {
+    Op::SampleRng {
+        seed: rng.next(),
+        kind: if rng.chance(1, 2) { RngKind::Native64 } else { RngKind::Native32 },
+        ed: workload::gen_edge_data(rng, &t.spec),
+        st: workload::gen_settings(rng),
+    }
+}
+
+fn gen_restart(rng: &mut SplitMix, t: &Target) -> Op {
+    let json = t.image_finite && rng.chance(1, 3);
+    Op::Restart { json, behaviour: ReadBehaviour::random(rng), publish: rng.chance(1, 2) }
+}
+
+fn gen_mixed_op(rng: &mut SplitMix, t: &Target, probe: &Op, c18: bool) -> Op {
+    let r = rng.below(100);
+    if c18 {
+        match r {
+            0..=34 => gen_restart(rng, t),
+            35..=44 => Op::Persist { json: t.image_finite && rng.chance(1, 3) },
+            45..=69 => {
+                if rng.chance(1, 2) {
+                    probe.clone()
+                } else {
+                    gen_sample_x(rng, &t.spec, t.dim)
+                }
+            }
+            70..=79 => Op::Getters,
+            80..=89 => Op::ImageCheck,
+            90..=94 => gen_rng_op(rng, t),
+            _ => Op::CloneLocal,
+        }
+    } else {
+        match r {
+            0..=24 => probe.clone(),
+            25..=49 => gen_sample_x(rng, &t.spec, t.dim),
+            50..=64 => gen_rng_op(rng, t),
+            65..=69 => Op::Getters,
+            70..=77 => {
+                let (point, ed, st) = match gen_sample_x(rng, &t.spec, t.dim) {
+                    Op::SampleX { point, ed, st } => (point, ed, st),
+                    _ => unreachable!(),
+                };
+                Op::Aborted { point, ed, st, at: rng.below(400) }
+            }
+            78..=81 => Op::CloneLocal,
+            82..=85 => Op::Build,
+            86..=88 => Op::Persist { json: t.image_finite && rng.chance(1, 3) },
+            89..=94 => gen_restart(rng, t),
+            _ => Op::ImageCheck,
+        }
+    }
 }
 
 pub fn gen_scenario(seed: u64, cfg: &GenCfg) -> Scenario {
@@ -87,19 +195,24 @@ pub fn gen_scenario(seed: u64, cfg: &GenCfg) -> Scenario {
     ctx::install(usize::MAX, None, PreemptPlan::default());
     let (max_e, max_l) = if cfg.thorough { (8, 4) } else { (6, 3) };
     let (spec, s) = pick_graph(&mut rng, max_e, max_l);
-    let dim = s.dimension();
-    let image_finite = s.image().count_floats().1 == 0;
+    let main = target(spec, s);
+    let c18 = cfg.flavor == Flavor::C18;
+    let alt: Option<Target> = if rng.chance(1, if c18 { 3 } else { 4 }) { make_alt(&mut rng, &main.spec, max_e, max_l) } else { None };
 
     let kind = rng.below(100);
     let mut clients: Vec<Vec<Op>> = Vec::new();
     let mut dense = 0u64;
-    let c18 = cfg.flavor == Flavor::C18;
-    // a probe several clients share (same arguments => same result)
-    let probe = gen_sample_x(&mut rng, &spec, dim);
-
-    let gen_restart = |rng: &mut SplitMix| -> Op {
-        let json = image_finite && rng.chance(1, 3);
-        Op::Restart { json, behaviour: ReadBehaviour::random(rng), publish: rng.chance(1, 2) }
+    // probes several clients share (same arguments => same result), one per sampler
+    let probe = gen_sample_x(&mut rng, &main.spec, main.dim);
+    let probe_alt = alt.as_ref().map(|a| gen_sample_x(&mut rng, &a.spec, a.dim));
+    // choose the sampler an operation acts on, and wrap accordingly
+    let pick = |rng: &mut SplitMix| -> bool { alt.is_some() && rng.chance(2, 5) };
+    let wrap = |on_alt: bool, op: Op| -> Op {
+        if on_alt {
+            Op::Alt(Box::new(op))
+        } else {
+            op
+        }
     };
 
     if kind < 60 || c18 && kind < 85 {
@@ -109,54 +222,10 @@ pub fn gen_scenario(seed: u64, cfg: &GenCfg) -> Scenario {
             let nops = rng.range(1, 6) as usize;
             let mut ops = Vec::new();
             for _ in 0..nops {
-                let r = rng.below(100);
-                let op = if c18 {
-                    match r {
-                        0..=34 => gen_restart(&mut rng),
-                        35..=44 => Op::Persist { json: image_finite && rng.chance(1, 3) },
-                        45..=69 => {
-                            if rng.chance(1, 2) {
-                                probe.clone()
-                            } else {
-                                gen_sample_x(&mut rng, &spec, dim)
-                            }
-                        }
-                        70..=79 => Op::Getters,
-                        80..=89 => Op::ImageCheck,
-                        90..=94 => Op::SampleRng {
-                            seed: rng.next(),
-                            kind: if rng.chance(1, 2) { RngKind::Native64 } else { RngKind::Native32 },
-                            ed: workload::gen_edge_data(&mut rng, &spec),
-                            st: workload::gen_settings(&mut rng),
-                        },
-                        _ => Op::CloneLocal,
-                    }
-                } else {
-                    match r {
-                        0..=24 => probe.clone(),
-                        25..=49 => gen_sample_x(&mut rng, &spec, dim),
-                        50..=64 => Op::SampleRng {
-                            seed: rng.next(),
-                            kind: if rng.chance(1, 2) { RngKind::Native64 } else { RngKind::Native32 },
-                            ed: workload::gen_edge_data(&mut rng, &spec),
-                            st: workload::gen_settings(&mut rng),
-                        },
-                        65..=69 => Op::Getters,
-                        70..=77 => {
-                            let (point, ed, st) = match gen_sample_x(&mut rng, &spec, dim) {
-                                Op::SampleX { point, ed, st } => (point, ed, st),
-                                _ => unreachable!(),
-                            };
-                            Op::Aborted { point, ed, st, at: rng.below(400) }
-                        }
-                        78..=81 => Op::CloneLocal,
-                        82..=85 => Op::Build,
-                        86..=88 => Op::Persist { json: image_finite && rng.chance(1, 3) },
-                        89..=94 => gen_restart(&mut rng),
-                        _ => Op::ImageCheck,
-                    }
-                };
-                ops.push(op);
+                let on_alt = pick(&mut rng);
+                let (t, pr) = if on_alt { (alt.as_ref().unwrap(), probe_alt.as_ref().unwrap()) } else { (&main, &probe) };
+                let op = gen_mixed_op(&mut rng, t, pr, c18);
+                ops.push(wrap(on_alt, op));
             }
             clients.push(ops);
         }
@@ -168,7 +237,10 @@ pub fn gen_scenario(seed: u64, cfg: &GenCfg) -> Scenario {
             let nops = rng.range(1, 2) as usize;
             let mut ops = Vec::new();
             for _ in 0..nops {
-                ops.push(if rng.chance(1, 2) { probe.clone() } else { gen_sample_x(&mut rng, &spec, dim) });
+                let on_alt = pick(&mut rng);
+                let (t, pr) = if on_alt { (alt.as_ref().unwrap(), probe_alt.as_ref().unwrap()) } else { (&main, &probe) };
+                let op = if rng.chance(1, 2) { pr.clone() } else { gen_sample_x(&mut rng, &t.spec, t.dim) };
+                ops.push(wrap(on_alt, op));
             }
             clients.push(ops);
         }
@@ -183,12 +255,24 @@ pub fn gen_scenario(seed: u64, cfg: &GenCfg) -> Scenario {
                 // exponentially distributed segment length
                 let bits = rng.range(1, 64 - max_n.leading_zeros() as u64);
                 let n = (rng.below(1 << bits) + 1).min(max_n);
-                let filler = if rng.chance(1, 2) { probe.clone() } else { gen_sample_x(&mut rng, &spec, dim) };
-                ops.push(Op::Repeat { op: Box::new(filler), n });
+                let on_alt = pick(&mut rng);
+                let (t, pr) = if on_alt { (alt.as_ref().unwrap(), probe_alt.as_ref().unwrap()) } else { (&main, &probe) };
+                let filler = if rng.chance(1, 2) { pr.clone() } else { gen_sample_x(&mut rng, &t.spec, t.dim) };
+                ops.push(wrap(on_alt, Op::Repeat { op: Box::new(filler), n }));
                 ops.push(probe.clone());
+                if let Some(pa) = &probe_alt {
+                    if rng.chance(1, 2) {
+                        ops.push(Op::Alt(Box::new(pa.clone())));
+                    }
+                }
                 if c18 && rng.chance(1, 2) {
-                    ops.push(gen_restart(&mut rng));
+                    let on_alt = pick(&mut rng);
+                    let t = if on_alt { alt.as_ref().unwrap() } else { &main };
+                    ops.push(wrap(on_alt, gen_restart(&mut rng, t)));
                     ops.push(probe.clone());
+                    if let Some(pa) = &probe_alt {
+                        ops.push(Op::Alt(Box::new(pa.clone())));
+                    }
                 }
             }
             clients.push(ops);
@@ -198,7 +282,14 @@ pub fn gen_scenario(seed: u64, cfg: &GenCfg) -> Scenario {
     // preemption plans over each client's own event indices
     let mut out_clients = Vec::new();
     for ops in clients {
-        let total: u64 = ops.iter().map(|o| events_of(&spec, &s, o)).sum::<u64>().max(1);
+        let total: u64 = ops
+            .iter()
+            .map(|o| {
+                let t = if o.strip().0 == 1 { alt.as_ref().unwrap_or(&main) } else { &main };
+                events_of(&t.spec, &t.s, o)
+            })
+            .sum::<u64>()
+            .max(1);
         let d = rng.below(9);
         let mut points: Vec<u64> = (0..d).map(|_| rng.below(total)).collect();
         points.sort_unstable();
@@ -208,7 +299,8 @@ pub fn gen_scenario(seed: u64, cfg: &GenCfg) -> Scenario {
     ctx::uninstall();
 
     Scenario {
-        spec,
+        spec: main.spec,
+        alt: alt.map(|a| a.spec),
         clients: out_clients,
         sched: *rng.pick(&[SchedKind::Uniform, SchedKind::Uniform, SchedKind::Pct, SchedKind::RoundRobin]),
         sched_seed: rng.next(),
